@@ -36,6 +36,7 @@ ASSUMPTIONS = [
 CASES = {'quick': 20000, 'thorough': 260000}
 TIME = {'quick': 70, 'thorough': 560}
 MIN_NONTRIVIAL = {'quick': 600, 'thorough': 6000}
+NO_ASSERT_SHARDS = True     # odd shards: pokerkit's asserts compiled out
 REQUIRED = ('showdowns_checked', 'side_pot_showdowns', 'tied_pots',
             'multi_board_showdowns', 'hilo_showdowns',
             'lone_survivor_hands', 'raked_showdowns',
